@@ -13,6 +13,11 @@ bits, modification time, content, link target — or absence) is the same before
 
 `_partial`: the theorems assume `TidyLinks es` (every link entry's target has all its `..` first).
 Without it the unchanged code writes outside `dst` (`C01_cex_write_through_link`).
+
+Absolute link targets were never excluded by hypothesis here (`GoodLink` covers them), so the repair
+of finding F12 (`Unpack` now refuses absolute targets that are not allow-listed, `Props/C04` §3b)
+leaves the statements as they were; the targets of the counterexample are relative, for which the
+link test of `Unpack` (`unpackLinkOK`) is `validSymlink`.
 -/
 namespace Slug
 
